@@ -17,14 +17,25 @@ def pregen():
 
 
 PREGEN_NOTES = pregen()   # at import: before the framework builds the Coq files
-THEOREMS = ['C01_run_invariant', 'C01_run_caller', 'C01_partial_und', 'C01_attempt', 'C01_rbu_step_partial',
-            'C01_source_table', 'C01_engine_is_table', 'C01_rbu_full', 'C01_rbu_start_degrees']
-RULE = ('8 engine routines + randomize_graph_partial_und + randomizer_bin_und on generated graphs n=4..9 (ER at several '
-        'densities, ring+chords, tree+chords, bridges, isolated nodes; binary and integer weights 1..9; domain filter: at least '
-        'two vertex-disjoint edges, connected input for the _connected routines); itr in {0,1,2,5}; every run is recorded '
-        '(all RandomState draws + the state after every accepted swap through the BCTPY_VERIF hook) and replayed by the '
-        'extracted Coq model; non-trivial = at least one accepted swap; distinct by hash of (routine, matrix, itr, seed)')
-ASSUMES = ['integer weights: moving and comparing them is exact in binary64',
+THEOREMS = ['C01_run_invariant', 'C01_run_caller', 'C01_rgpu_run', 'C01_rgpu_caller', 'C01_attempt', 'C01_rbu_step',
+            'C01_nothing_to_do', 'C01_nothing_to_do_latt', 'C01_rgpu_nothing_to_do',
+            'C01_source_table', 'C01_engine_is_table', 'C01_rgpu_is_table', 'C01_rbu_full', 'C01_rbu_start_degrees', 'C01_rbu_zero_identity',
+            'C01_und_selfloop_refuted']
+RULE = ('8 engine routines + randomize_graph_partial_und + randomizer_bin_und on generated graphs n=4..9 and (one in eight) '
+        'n=10..20 (ER at several densities, ring+chords, tree+chords, bridges, isolated nodes, exactly two disjoint edges, long ring, '
+        'path+chords, two cliques+bridge; binary, integer, signed and dyadic (k/8) weights in float64/float32/int64/bool arrays; '
+        'self-connections for the directed routines; domain filter: at least two vertex-disjoint edges, connected input for the '
+        '_connected routines); itr in {0,1,2,5}; caller-supplied D integer or dyadic (k/4, also negative); fractional / signed masks; '
+        'randomizer_bin_und on 0/1, weighted, int/bool and diagonal-bearing input with alpha in {0,0.05,0.3,1}; separate streams: '
+        'asymmetric input to randmio_und (BCTParamError <-> model precheck), degenerate inputs (n<2, no edge, one edge with itr=0), '
+        'undirected routines on input with self-connections (known finding), exhaustive slice (all graphs n=5 und / n=4 dir). '
+        'Every run is recorded (all RandomState draws + the state after every accepted swap through the BCTPY_VERIF hook) and '
+        'replayed by the extracted Coq model, which must end in the same outcome (Done/Rejected/Raises) and reproduce every state; '
+        'the implementation always gets a copy and the caller\'s array is compared afterwards; '
+        'non-trivial = at least one accepted swap; distinct by hash of (routine, matrix, itr, seed)')
+ASSUMES = ['integer or small dyadic weights (k/8), D (k/4) and mask values: moving, comparing and multiplying them is exact in binary64; the '
+           'model is over Z and receives them multiplied by a power of two (the engine only moves weights and tests them against 0, the '
+           'lattice condition is homogeneous in R and in D, the mask is only tested against 0)',
            'np.round(n*k/(n*(n-1))) equals the exact rational rounding (half to even) for these sizes']
 TRUSTED = ['recording RandomState subclass (harness/common.Rec) leaves the draws unchanged; hook lines in reference.py only copy state']
 
@@ -54,8 +65,9 @@ def oracle(ctx, fn, A, res, case):
         ctx.check(np.array_equal(A, X), fn + ':zero-identity', 'zero rewirings requested/reported but output differs from input', case)
     if res['perm'] is not None:
         p = res['perm']
-        ctx.check(np.array_equal(X[np.ix_(p, p)], res['rp']), fn.replace('_connected', '') .replace('latmio', 'latmio') + ':reindex'
-                  if False else fn + ':reindex', 'Rlatt[ix_(ind_rp,ind_rp)] != Rrp', case)
+        # the theorems take "ind_rp is a permutation of 0..n-1" as a hypothesis on the stream: check it on the real draw
+        if ctx.check(sorted(int(v) for v in p) == list(range(len(A))), fn + ':reindex', 'returned node ordering is not a permutation of 0..n-1', case):
+            ctx.check(np.array_equal(X[np.ix_(p, p)], res['rp']), fn + ':reindex', 'Rlatt[ix_(ind_rp,ind_rp)] != Rrp', case)
     # per-swap hook: the edge list mirrors the matrix after every accepted swap
     for t, e in enumerate(res['events']):
         R = e['R']
@@ -76,24 +88,118 @@ def one_case(ctx, fn, lines, pend):
     r = ctx.nprng
     und = fn in UND
     A, fam = gen_graph(r, und, connected=fn in CONN)
-    itr = int(r.choice([0, 1, 1, 2, 5]))
+    n = len(A)
+    if not und and A.dtype != bool and r.rand() < 0.15:
+        # directed routines: self-connections are ordinary edges of the list np.where(R) (C01_run_caller needs no
+        # empty-diagonal hypothesis for them); they may move, but no NEW one may appear
+        for z in r.choice(n, int(r.randint(1, 3)), replace=False):
+            A[z, z] = 1
+        fam += '+selfloops'
+    itr = int(r.choice([0, 1, 1, 2, 5])) if n < 10 else int(r.choice([0, 1, 1, 2]))
     seed = int(r.randint(1, 2 ** 31 - 1))
     D = None
     if fn in LATT and r.rand() < 0.4:
-        n = len(A)
-        D = r.randint(0, 6, size=(n, n)).astype(float)
-        if und or r.rand() < 0.5:
-            D = np.triu(D, 1); D = D + D.T
+        D, dk = gen_D(r, n, und or r.rand() < 0.5)
+        ctx.count('D:' + dk)
     res = run_impl(fn, A, itr, seed, D=D)
-    case = {'fn': fn, 'A': A.astype(int).tolist(), 'itr': itr, 'seed': seed, 'D': None if D is None else D.astype(int).tolist()}
+    case = {'fn': fn, 'A': jmat(A), 'dtype': str(A.dtype), 'itr': itr, 'seed': seed, 'D': jmat(D)}
     nacc = len(res['events'])
     ctx.case(case, nontrivial=nacc > 0)
-    ctx.count('%s:%s' % (fn, fam)); ctx.count('accepted_swaps', nacc); ctx.count('n=%d' % len(A))
+    ctx.count('%s:%s' % (fn, fam)); ctx.count('accepted_swaps', nacc); ctx.count('n=%d' % len(A)); ctx.count('dtype:' + str(A.dtype))
     if res.get('error') == 'timeout':
         ctx.count('timeout'); return
     oracle(ctx, fn, A, res, case)
     if not res['error']:
         lines.append(model_line(fn, A, itr, res['draws'], D=D)); pend.append((fn, case, res))
+        lines.append(precheck_line(fn, A)); pend.append(('precheck', case, True))
+
+
+def selfloop_case(ctx, fn, lines, pend, pinned=None):
+    """undirected engine routines on a symmetric input with a NON-EMPTY diagonal (outside the documented domain; the
+    property is false there: Properties/C01.v C01_und_selfloop_refuted, known_findings.d/C01.json).  One narrow key per
+    routine, so any other violation is still reported; the model must follow the implementation here too."""
+    r = ctx.nprng
+    if pinned:
+        A, _, _ = case_arrays(pinned); itr = pinned['itr']; seed = pinned['seed']; fam = 'pinned'
+    else:
+        A, fam = gen_graph(r, True, connected=fn in CONN, big=False)
+        A = A.astype(float) if A.dtype == bool else A.copy()
+        for z in r.choice(len(A), int(r.randint(1, 3)), replace=False):
+            A[z, z] = 1
+        itr = int(r.choice([1, 2])); seed = int(r.randint(1, 2 ** 31 - 1))
+    res = run_impl(fn, A, itr, seed)
+    case = {'fn': fn, 'A': jmat(A), 'dtype': str(A.dtype), 'itr': itr, 'seed': seed, 'D': None, 'kind': 'nonempty-diagonal'}
+    ctx.case(case, nontrivial=len(res['events']) > 0); ctx.count(fn + ':nonempty-diagonal(' + fam.split('+')[0] + ')')
+    if res.get('error') == 'timeout':
+        ctx.count('timeout'); return
+    if res['error']:
+        ctx.fail(fn + ':nonempty-diagonal', 'raised: ' + res['error'], case)
+    else:
+        X = np.asarray(res['out'])
+        ok = np.array_equal(X, X.T) and np.array_equal(degs(A)[0], degs(X)[0]) and np.array_equal(degs(A)[1], degs(X)[1]) \
+            and np.array_equal(np.sort(A[A != 0]), np.sort(X[X != 0]))
+        ctx.check(ok, fn + ':nonempty-diagonal', 'input with self-connections: asymmetric output / degree or weight multiset changed', case)
+    lines.append(model_line(fn, A, itr, res['draws'])); pend.append((fn, case, res))
+
+
+def degenerate_case(ctx, lines, pend):
+    """the endings other than a normal return: n < 2 (ZeroDivisionError -> Raises), no edge or one edge with itr = 0 and no
+    edge with itr > 0 (the copy is returned), randomize_graph_partial_und without an edge (ValueError -> Raises)"""
+    r = ctx.nprng
+    fn = str(r.choice(ROUTINES + ['randomize_graph_partial_und']))
+    kind = str(r.choice(['n<2', 'no-edge', 'one-edge-itr0', 'no-edge-itr0']))
+    n = int(r.randint(2, 6))
+    A = np.zeros((n, n))
+    itr = int(r.choice([1, 2, 3]))
+    if kind == 'n<2':
+        n = int(r.randint(0, 2)); A = np.zeros((n, n))
+    elif kind == 'one-edge-itr0':
+        x, y = r.choice(n, 2, replace=False); A[x, y] = 3
+        if fn in UND:
+            A[y, x] = 3
+        itr = 0
+    elif kind == 'no-edge-itr0':
+        itr = 0
+    seed = int(r.randint(1, 2 ** 31 - 1))
+    B = np.zeros((n, n)) if fn == 'randomize_graph_partial_und' else None
+    res = run_impl(fn, A, itr, seed, B=B, t=2.0)
+    case = {'fn': fn, 'A': jmat(A), 'dtype': 'float64', 'itr': itr, 'seed': seed, 'D': None, 'B': jmat(B), 'kind': kind}
+    ctx.case(case, nontrivial=True); ctx.count('degenerate:' + kind)
+    if res.get('error') == 'timeout':
+        ctx.count('timeout'); return
+    if not res['error']:
+        ctx.check(np.array_equal(res['out'], A), fn + ':zero-identity', 'nothing to rewire but the output differs from the input', case)
+    lines.append(model_line(fn, A, itr, res['draws'], B=B)); pend.append((fn, case, res))
+
+
+def reject_case(ctx, lines, pend):
+    """randmio_und raises BCTParamError on asymmetric input (latmio_und has no such check): the model's precheck must agree"""
+    import bct
+    r = ctx.nprng
+    fn = 'randmio_und'
+    A, fam = gen_graph(r, True)
+    A = A.astype(float); n = len(A)
+    x, y = r.choice(n, 2, replace=False)
+    kind = str(r.choice(['cell', 'weight']))
+    if kind == 'weight' and A[x, y] != 0:
+        A[x, y] = A[x, y] + float(r.choice([0.125, 1, -0.5]))      # same support unless the sum is 0, other weight
+    else:
+        A[x, y] = 0 if A[x, y] != 0 else 1                          # one-sided connection
+    if np.array_equal(A, A.T):
+        return
+    case = {'fn': fn, 'A': jmat(A), 'dtype': 'float64', 'itr': 1, 'seed': 1, 'D': None, 'kind': 'asymmetric-' + kind}
+    ctx.case(case, nontrivial=True); ctx.count(fn + ':malformed-asymmetric-' + kind)
+    try:
+        call(bct.randmio_und, A.copy(), 1, seed=1, _t=2.0)
+        raised = False
+    except bct.utils.BCTParamError:
+        raised = True
+    except Timeout:
+        raised = False
+    except Exception as e:
+        ctx.fail(fn + ':raises', 'asymmetric input raised %s instead of BCTParamError' % type(e).__name__, case); return
+    ctx.check(raised, fn + ':rejects', 'asymmetric input accepted (BCTParamError expected)', case)
+    lines.append(precheck_line(fn, A)); pend.append(('precheck', case, not raised))
 
 
 def partial_case(ctx, lines, pend):
@@ -101,13 +207,16 @@ def partial_case(ctx, lines, pend):
     fn = 'randomize_graph_partial_und'
     A, fam = gen_graph(r, True)
     n = len(A)
-    B = np.triu((r.rand(n, n) < float(r.choice([0, 0.1, 0.3]))).astype(float), 1); B = B + B.T
+    B = np.triu((r.rand(n, n) < float(r.choice([0, 0.1, 0.3]))).astype(float), 1)
+    if r.rand() < 0.4:       # "nonzero" is what counts: fractional / signed marks
+        B = B * r.choice([-2, -0.5, 0.25, 0.5, 0.75, 3], size=(n, n)); ctx.count(fn + ':fractional-mask')
+    B = B + B.T
     maxswap = int(r.choice([0, 1, 2, 4]))
     seed = int(r.randint(1, 2 ** 31 - 1))
     res = run_impl(fn, A, maxswap, seed, B=B, t=1.0)
-    case = {'fn': fn, 'A': A.astype(int).tolist(), 'B': B.astype(int).tolist(), 'itr': maxswap, 'seed': seed}
+    case = {'fn': fn, 'A': jmat(A), 'dtype': str(A.dtype), 'B': jmat(B), 'itr': maxswap, 'seed': seed}
     ctx.case(case, nontrivial=len(res['events']) > 0)
-    ctx.count('%s:%s' % (fn, fam))
+    ctx.count('%s:%s' % (fn, fam)); ctx.count('dtype:' + str(A.dtype))
     if res.get('error') == 'timeout':
         ctx.count('timeout(partial_und: no admissible swap)'); return
     res['eff'] = None
@@ -136,33 +245,54 @@ def rbu_case(ctx, lines=None, pend=None):
         z, w = r.choice(n, 2, replace=False); A[z, :] = 0; A[:, z] = 0; A[w, :] = 1; A[:, w] = 1; A[w, w] = 0; A[z, w] = A[w, z] = 0
         ctx.count('rbu:isolated+almost-full')
     ctx.count('rbu:dense' if A.sum() / 2 > (n * n - n) / 4 else 'rbu:sparse')
-    alpha = float(r.choice([0.3, 1.0])); seed = int(r.randint(1, 2 ** 31 - 1))
-    if r.rand() < 0.25:
+    alpha = float(r.choice([0.0, 0.05, 0.3, 0.3, 1.0, 1.0])); seed = int(r.randint(1, 2 ** 31 - 1))
+    u = r.rand()
+    if u < 0.2:
         A = A.astype(int); ctx.count('rbu:int-dtype')      # integer 0/1 input (raised OverflowError before the fix)
-    case = {'fn': fn, 'A': A.astype(int).tolist(), 'itr': alpha, 'seed': seed}
+    elif u < 0.3:
+        A = A.astype(bool); ctx.count('rbu:bool-dtype')
+    elif u < 0.5:                                          # weighted symmetric input: the routine binarises it
+        W = np.triu(r.choice([-3, -0.5, 0.125, 0.5, 2, 7], size=(n, n)), 1); A = A * (W + W.T); ctx.count('rbu:weighted')
+    if A.dtype != bool and r.rand() < 0.2:                 # self-connections: saved, masked by the sentinel, restored (binarised)
+        for z in r.choice(n, int(r.randint(1, 3)), replace=False):
+            A[z, z] = 1 if A.dtype.kind == 'i' else float(r.choice([1, 0.5, -2]))
+        ctx.count('rbu:nonzero-diagonal')
+    case = {'fn': fn, 'A': jmat(A), 'dtype': str(A.dtype), 'itr': alpha, 'seed': seed}
+    A0 = A.copy()
     _verif.reset()
     try:
         X = call(bct.randomizer_bin_und, A, alpha, seed=seed, _t=5.0)
     except bct.utils.BCTParamError:
-        ctx.count('rbu:no-possible-randomization'); ctx.case(case, nontrivial=False); return
+        ctx.count('rbu:no-possible-randomization'); ctx.case(case, nontrivial=False)
+        if lines is not None:    # the model must refuse the same inputs (code 1), before any draw
+            lines.append('rbufull %s %s 0 ' % (enc_zmat(A0), enc_q(F(alpha)))); pend.append(('rbureject', case, None))
+        return
     except Exception as e:
         ctx.case(case, nontrivial=True)
         ctx.fail(fn + ':raises', 'raised %s: %s' % (type(e).__name__, str(e)[:80]), case); return
     ev = [kw for tag, kw in _verif.LOG if tag == 'swap']; _verif.reset()
     ctx.case(case, nontrivial=len(ev) > 0); ctx.count('rbu:swaps', len(ev))
+    if not np.array_equal(A, A0):
+        ctx.mismatch(fn, "the implementation modified its caller's array", case)
+    A = A0
     if lines is not None:
         # full-routine correspondence: re-run with the recording generator, replay the draws in the model
         rec = Rec(seed); _verif.reset()
-        X2 = call(bct.randomizer_bin_und, A, alpha, seed=rec, _t=5.0)
+        X2 = call(bct.randomizer_bin_und, A.copy(), alpha, seed=rec, _t=5.0)
         ev2 = [kw for tag, kw in _verif.LOG if tag == 'swap']; _verif.reset()
         draws = flatten_draws(rec.log)
-        lines.append('rbufull %s %s %d %s' % (enc_mat(A.astype(int).tolist()), enc_q(F(alpha)), len(draws), ' '.join(draws)))
+        lines.append('rbufull %s %s %d %s' % (enc_zmat(A), enc_q(F(alpha)), len(draws), ' '.join(draws)))
         pend.append(('rbufull', case, (np.asarray(X2, dtype=float), ev2)))
     X = np.asarray(X, dtype=float)
+    Ab = (np.asarray(A) != 0).astype(float)                # the property speaks of connections: the binarised input
     ctx.check(np.array_equal(degs(A)[0], degs(X)[0]), fn + ':degree', 'degree of some node changed', case)
     ctx.check(np.array_equal(X, X.T), fn + ':sym', 'asymmetric output', case)
-    ctx.check(set(np.unique(X)) <= {0.0, 1.0} and X.sum() == A.sum(), fn + ':weights', 'not binary / edge count changed', case)
-    ctx.check(np.all(np.diag(X) == 0), fn + ':diag', 'new self-connection', case)
+    ctx.check(set(np.unique(X)) <= {0.0, 1.0} and X.sum() == Ab.sum(), fn + ':weights', 'not binary / edge count changed', case)
+    ctx.check(not np.any((np.diag(X) != 0) & (np.diag(Ab) == 0)), fn + ':diag', 'new self-connection', case)
+    ctx.check(np.array_equal(np.diag(X), np.diag(Ab)), fn + ':diag-kept', 'the (binarised) diagonal of the input is not returned', case)
+    if len(ev) == 0:
+        ctx.count('rbu:nothing-rewired')
+        ctx.check(np.array_equal(X, Ab), fn + ':zero-identity', 'nothing was rewired but the output is not the (binarised) input', case)
     # every step: each swap keeps the working matrix symmetric with the same row sums off the diagonal
     prev = None
     for e in ev:
@@ -199,7 +329,7 @@ def exhaustive_slice(ctx, lines, pend):
         if fn in CONN and not connected_und(A):
             fn = 'randmio_und'
         res = run_impl(fn, A, 1, 1000 + code)
-        case = {'fn': fn, 'A': A.astype(int).tolist(), 'itr': 1, 'seed': 1000 + code, 'D': None}
+        case = {'fn': fn, 'A': jmat(A), 'dtype': 'float64', 'itr': 1, 'seed': 1000 + code, 'D': None}
         ctx.case(case, nontrivial=len(res['events']) > 0); ctx.count('exhaustive:und5')
         oracle(ctx, fn, A, res, case)
         if not res['error']:
@@ -216,7 +346,7 @@ def exhaustive_slice(ctx, lines, pend):
         fn = ['randmio_dir', 'latmio_dir'][cnt % 2]
         cnt += 1
         res = run_impl(fn, A, 1, 2000 + code)
-        case = {'fn': fn, 'A': A.astype(int).tolist(), 'itr': 1, 'seed': 2000 + code, 'D': None}
+        case = {'fn': fn, 'A': jmat(A), 'dtype': 'float64', 'itr': 1, 'seed': 2000 + code, 'D': None}
         ctx.case(case, nontrivial=len(res['events']) > 0); ctx.count('exhaustive:dir4')
         oracle(ctx, fn, A, res, case)
         if not res['error']:
@@ -226,6 +356,12 @@ def exhaustive_slice(ctx, lines, pend):
 def run(ctx):
     ctx.extra['translator_unrecognised'] = PREGEN_NOTES
     lines, pend = [], []
+    corpus = os.path.join(VERIF, 'corpus', 'C01.json')
+    if os.path.exists(corpus):
+        import json
+        for c in json.load(open(corpus)):
+            if c.get('kind') == 'nonempty-diagonal':
+                selfloop_case(ctx, c['fn'], lines, pend, pinned=c)
     exhaustive_slice(ctx, lines, pend)
     per = ctx.scale(28, 300)
     for fn in ROUTINES:
@@ -233,6 +369,13 @@ def run(ctx):
             one_case(ctx, fn, lines, pend)
     for _ in range(per):
         partial_case(ctx, lines, pend)
+    for _ in range(per // 2):
+        reject_case(ctx, lines, pend)
+    for fn in ['randmio_und', 'randmio_und_connected', 'latmio_und', 'latmio_und_connected']:
+        for _ in range(max(3, per // 6)):
+            selfloop_case(ctx, fn, lines, pend)
+    for _ in range(per // 2):
+        degenerate_case(ctx, lines, pend)
     for _ in range(per * 2):
         rbu_case(ctx, lines, pend)
     res = run_model(ID, lines)
@@ -240,6 +383,14 @@ def run(ctx):
     for (fn, case, r), m in zip(pend, res):
         if is_err(m):
             ctx.mismatch(fn, 'model error: ' + m['error'], case); continue
+        if fn == 'precheck':
+            if bool(m) != bool(r):
+                ctx.mismatch(case['fn'] + ':precheck', 'model precheck = %s, implementation %s BCTParamError' % (m, 'does not raise' if r else 'raises'), case)
+            continue
+        if fn == 'rbureject':
+            if m['code'] != 1:
+                ctx.mismatch('randomizer_bin_und', 'implementation raises BCTParamError, model code %d' % m['code'], case)
+            continue
         if fn == 'rbufull':
             X2, ev2 = r
             if m['code'] != 0:
